@@ -186,6 +186,10 @@ func corpus() []core.Case {
 		// a node returned by Remove(0)/RemoveFront/Remove(i) is detached: re-linked at the back of this
 		// list and of the second list (flip), no cycle, no shared tail
 		{Lines: []string{"@ C13 slist n", "pb 1", "pb 2", "pb 3", "rm 0", "next 0", "pbn 0", "walkbody", "rm 0", "insn 5 1", "len", "back", "rm 0", "flip", "pbn 2", "next 2", "len", "flip", "len", "back", "rmf", "flip", "insn 1 0", "walkbody", "flip", "walkbody", "rm 0", "pfn 1", "next 1"}, Tag: "history"},
+		// loop bodies calling the API on the OTHER list of the family; the current node moved into the
+		// other list inside the loop (the loop goes on there)
+		{Lines: []string{"@ C13 slist z", "pb 1", "pb 2", "pb 3", "flip", "pb 8", "pb 9", "flip", "allbody 0:o.rmf 1:o.pb:7", "walkbody 0:rm:0 0:o.pfn:0", "flip", "walkbody", "flip", "allbody 1:rm:1 1:o.pbn:2 2:break", "flip", "len", "back", "allbody 0:o.pb:5 1:o.rm:0"}, Tag: "history"},
+		{Lines: []string{"@ C13 dlist z n", "pb A 1", "pb A 2", "pb A 3", "pb B 8", "pb B 9", "allbody A 0:mtf:B:6 1:rm:B:5", "walkbody A 0:pb:B:4 1:ib:B:7:6 2:rm:A:3", "allbody B 0:rm:A:2 1:pb:A:0", "len A", "len B"}, Tag: "history"},
 		// SList: head/tail bookkeeping at sizes 0,1,2
 		{Lines: []string{"@ C13 slist", "rmf", "rm 0", "get 0", "pb 1", "rm 0", "pf 2", "rmf", "ins 5 3", "ins -1 4", "ins 1 5", "rm 2", "rm 1", "rm 0", "swap 0 0"}},
 		{Lines: []string{"@ C13 slist", "pb 1", "pb 2", "pb 3", "swap 0 2", "swap 2 1", "swap 1 3", "swap -1 0", "rm 2", "pb 4", "rm 0", "pf 5", "get 2", "get 3", "get -1", "new 9", "insn 1 5", "rm 1", "pbn 5", "rm 3", "pfn 5"}},
